@@ -426,6 +426,8 @@ def scenario(scratch, binp, rnd, nrep=1):
             sh.prom.refuse = False
         phases.append(('reload-refused', sysm.quiet('reload-refused')))
         # a target grows: its shard may become overloaded and hand a target over to the other one
+        if not sysm.snaps[0]:
+            raise C.Inconclusive('no sample of the first replica could be taken')
         g, w = rnd.choice([1, 2]), sysm.snaps[0][-1]['world']
         newsize = 6
         for sh in sorted(w['shards'], key=lambda sh: -sum(r['series'] for r in sh['status'])):
@@ -495,10 +497,12 @@ def evaluate(scratch, sd, tier, seed, nrep=1):
             try:
                 rs, n = scenario(sub + ('' if attempt == 0 else '-retry%d' % attempt), binp, rnd, nrep)
                 break
-            except C.Inconclusive:
-                # a process that does not come up (no free port at that moment, a loaded machine): once more, later
+            except Exception as e:
+                # a process that does not come up, a request that times out on a loaded machine: once more, later
                 if attempt == 2:
-                    raise
+                    if isinstance(e, C.Inconclusive):
+                        raise
+                    raise C.Inconclusive('the process-level scenario could not be run: %r' % (e,))
                 time.sleep(20)
         for r in rs:
             r['id'] = 900000 + len(runs)
